@@ -132,7 +132,7 @@ impl Property for C07 {
         ]
     }
     fn expected_probes(&self) -> Vec<&'static str> {
-        vec!["ula_read", "ula_write", "paging_write", "ay_select", "ay_data", "ay_read", "kempston_read", "mouse_read", "extender_read", "extender_write", "floating_border", "floating_fetch", "unclaimed_write", "multi_device_skipped", "paging_alias", "ay_alias"]
+        vec!["ula_read", "ula_write", "paging_write", "ay_select", "ay_data", "ay_read", "kempston_read", "mouse_read", "extender_read", "extender_write", "floating_border", "floating_fetch", "unclaimed_write", "multi_device_skipped", "paging_alias", "ay_alias", "ear_follows_tape", "floating_exact"]
     }
 
     fn gen(&self, rng: &mut Rng, _tier: Tier, _idx: u64) -> Scenario {
@@ -141,8 +141,9 @@ impl Property for C07 {
         sc.set("kempston", rng.bool() as i64);
         sc.set("mouse", rng.bool() as i64);
         sc.set("extender", rng.chance(1, 3) as i64);
+        sc.set("tape", rng.chance(1, 4) as i64);
         sc.set("seed", (rng.next() >> 2) as i64);
-        sc.set("n", 120);
+        sc.set("n", if sc.get("tape") != 0 { 260 } else { 120 });
         sc
     }
 
@@ -195,6 +196,18 @@ impl Property for C07 {
             }
             e.set_io_extender(SimExtender { claimed: claimed.clone(), log: vec![], read_xor: rng.u8() });
         }
+        // a playing tape (pilot tone) in a share of runs: bit 6 of ULA reads must follow it
+        let tape_playing = sc.get("tape") != 0;
+        if tape_playing {
+            let blk = zxref::tape::std_block(0x00, &[0u8; 17]);
+            let img = zxref::tape::make_tap(&[blk]);
+            e.load_tape(rustzx_core::host::Tape::Tap(AnyAsset::Sim(SimAsset::plain(img)))).map_err(|x| Fail::new("C07.load_tape", "", format!("{:?}", x)))?;
+            e.play_tape();
+        }
+        let mut ear_seen = [0u32; 2];
+        let mut ear_first_t: Option<u64> = None;
+        let mut ear_last_t = 0u64;
+        let mut abs_t = 0u64;
         // model state
         let mut keys = [false; 40];
         for _ in 0..rng.range(0, 4) {
@@ -256,9 +269,19 @@ impl Property for C07 {
             let t = match beam {
                 0 => rng.below(ula.t0 - 200), // top border / retrace
                 1 => ula.t0 + rng.below(192) * ula.line + 130 + rng.below(ula.line - 150), // right border / retrace of a picture line
-                _ => ula.t0 + rng.below(192) * ula.line + rng.below(118), // fetch window
+                _ => {
+                    if rng.chance(1, 6) {
+                        // the bus sample (start + 11) lands on the first / last fetch slots of a line
+                        let line = *rng.pick(&[0u64, 0, 1, 95, 190, 191, 191]);
+                        let slot = *rng.pick(&[0u64, 0, 1, 2, 3, 4, 120, 123, 124, 127, 128]);
+                        (ula.t0 + 3 + line * ula.line + slot + rng.below(3)).saturating_sub(11 + 1)
+                    } else {
+                        (ula.t0 + rng.below(192) * ula.line + rng.below(130)).saturating_sub(10) // fetch window
+                    }
+                }
             };
             goto_t(&mut e, t, f);
+            abs_t += 12 + 4000; // accesses are spread over the frame(s); exact spacing is irrelevant here
             let is_ext = claimed.contains(&port);
             let (devs, dontcare) = selected(&conf, port, write);
             let got = cpu_io(&mut e, port, if write { Some(v) } else { None })?;
@@ -395,7 +418,15 @@ impl Property for C07 {
                             }
                         }
                         // bit 6 = EAR (low: no tape); bits 5 and 7 are not specified
-                        if got & 0x5F != bits {
+                        if tape_playing {
+                            ear_seen[((got >> 6) & 1) as usize] += 1;
+                            if ear_first_t.is_none() {
+                                ear_first_t = Some(abs_t);
+                            }
+                            ear_last_t = abs_t;
+                        }
+                        let cmp_mask = if tape_playing { 0x1F } else { 0x5F };
+                        if got & cmp_mask != bits {
                             return Err(Fail::new("C07.ula_read", &format!("machine={}", machine), format!("IN {:04X} returned {:02X}; keyboard rows give bits {:05b} and EAR is low", port, got, bits)));
                         }
                         None
@@ -425,6 +456,44 @@ impl Property for C07 {
                         Some(my)
                     }
                     Some(_) => None,
+                    None if {
+                        // exact floating-bus model when nothing delays the port cycle: IN A,(C) from
+                        // uncontended code on a port whose high byte is not in contended RAM samples the bus in
+                        // the last T-state of its port cycle (start + 11). The ULA fetches display byte,
+                        // attribute, display byte + 1, attribute + 1 in the T-states T0+3 .. T0+6 of every
+                        // 8-T group of the 128-T window, and idles (0xFF) in the other four.
+                        let hi = (port >> 8) as u8;
+                        let contended_hi = (0x40..0x80).contains(&hi) || (m128 && hi >= 0xC0 && (latch & 1 == 1));
+                        !contended_hi
+                    } =>
+                    {
+                        ctx.probe("floating_exact");
+                        let ts = t + 11;
+                        let first = ula.t0 + 3;
+                        let mut expv = 0xFFu8;
+                        if ts >= first {
+                            let x = ts - first;
+                            let line = (x / ula.line) as usize;
+                            let c = x % ula.line;
+                            if line < 192 && c < 128 && c & 4 == 0 {
+                                let col = ((c / 8) * 2 + (c % 8) / 2) as usize;
+                                expv = if c % 2 == 0 { screen_byte(line, col) } else { attr_byte(line / 8, col) };
+                                ctx.probe("floating_fetch");
+                            } else {
+                                ctx.probe("floating_border");
+                            }
+                        } else {
+                            ctx.probe("floating_border");
+                        }
+                        if got != expv {
+                            return Err(Fail::new(
+                                "C07.floating_bus",
+                                &format!("machine={},beam={},exact=1", machine, beam),
+                                format!("IN {:04X} (no device selected) started at T={} (bus sampled at T={}): returned {:02X}, the ULA fetch schedule gives {:02X}", port, t, ts, got, expv),
+                            ));
+                        }
+                        None
+                    }
                     None => {
                         // floating bus
                         let tr = t + 8; // the port cycle of IN A,(C) starts after the two opcode fetches
@@ -489,6 +558,17 @@ impl Property for C07 {
                 }
             }
         }
+        if tape_playing && ear_seen[0] + ear_seen[1] >= 34 {
+            ctx.probe("ear_follows_tape");
+            if ear_seen[0] == 0 || ear_seen[1] == 0 {
+                return Err(Fail::new(
+                    "C07.ear_bit",
+                    &format!("machine={}", machine),
+                    format!("a pilot tone is playing, yet bit 6 of {} ULA reads spread over the frame was always {}", ear_seen[0] + ear_seen[1], if ear_seen[0] == 0 { 1 } else { 0 }),
+                ));
+            }
+        }
+        let _ = (ear_first_t, ear_last_t);
         Ok(())
     }
 }
